@@ -114,8 +114,12 @@ class PKPDWalker(Walker):
         obj, attr = _split_attr(target)
         if obj is None:
             return
+        if attr == '_output_names':
+            st.ts['outs:' + obj] = 'CHANGED'
+            st.trace += (('outputs replaced', where, U(value)),)
         if attr == '_simulator':
             if _is_new_sim(value, st):
+                st.ts['outs:' + obj] = 'SYNC'
                 st.ts['simkind:' + obj] = _sim_kind(value, st)
                 st.ts['sim:' + obj] = 'DET'
                 st.trace += (('rebuild', where, norm_stmt(target._parent)
@@ -491,3 +495,46 @@ def r11_7(ctx, repo):
                        'current request' % flags, engine='typestate')
     if n < 2:
         ctx.error(rule, 'only %d enable_sensitivities walks (floor 2)' % n)
+
+
+
+def r11_8(ctx, repo):
+    """A solver built with sensitivities logs the outputs it was built for:
+    whenever the output selection (`_output_names`) is replaced while
+    sensitivities are enabled, every path to a normal exit rebuilds the
+    solver (the order of the outputs is part of the request, so an equal
+    *set* of outputs is not enough)."""
+    rule = 'R11.8'
+    n = 0
+    done = set()
+    for recv in repo.subclasses('SBMLModel'):
+        for m, k, fn, env, exits, trunc in _run_all(repo, recv):
+            if m.startswith('_') or env.get('self._has_sensitivities') \
+                    is not True:
+                continue        # helpers run mid-update; judge public exits
+            construct = '%s.%s' % (recv, m)
+            touched = False
+            bad = None
+            for st in exits:
+                if any(t[0] == 'outputs replaced' for t in st.trace):
+                    touched = True
+                    if st.ts.get('outs:self') == 'CHANGED':
+                        bad = st
+            if not touched or (construct, bad is not None) in done:
+                continue
+            done.add((construct, bad is not None))
+            n += 1
+            if bad is not None:
+                ctx.violation(
+                    rule, repo.loc(fn, k, m), construct, 'stale solver outputs',
+                    'a path through %s replaces the output selection while '
+                    'sensitivities are enabled and returns without '
+                    'rebuilding the solver: outputs() and the simulated '
+                    'values follow the new selection, the sensitivities the '
+                    'old one' % construct, engine='typestate')
+            else:
+                ctx.ok(rule, repo.loc(fn, k, m), construct,
+                       'the solver is rebuilt on every path that replaces '
+                       'the output selection', engine='typestate')
+    if n < 1:
+        ctx.error(rule, 'no method replacing the output selection found')
